@@ -196,6 +196,9 @@ def run(ctx, rep):
     from props import c19
     c19.rule_gate(rep, crate)
     from props import cg
+    # the priorities compared are the documented ones (default priorities included in the property's quantifier)
+    cg.rule_complexity(rep, crate)
+    cg.rule_priority_parse(rep, crate)
     cg.cg_controls(rep, ctx, [('M-C08a', rule_no_conflict_dropped)])
     from props import gen
     gen.rule_must_reject(ctx, rep, gen.configs(ctx), ['equal_priority'], floor=8)
